@@ -188,7 +188,7 @@ class FakeRepo:
         h = hashlib.sha256()
         h.update(repr((self.personality, self.remote, self.tracking, sorted(self.parents.items()),
                        sorted(self.branches.items()), self.head, sorted(self.tags.items()),
-                       self.status, self.staged, self.commit_log, self.tag_log, self.push_log,
+                       self.status, sorted(self.staged), self.commit_log, self.tag_log, self.push_log,
                        self.fetch_count)).encode("utf-8", "surrogateescape"))
         return h.hexdigest()[:16]
 
